@@ -211,11 +211,60 @@ func runC40(c *core.Ctx) {
 			}
 		}
 		c.Floor("appends to the selection", len(appends), 1)
+		leadHost, leadMap := fn, leading
+		if leading == nil {
+			// the excluded set may be built by a same-package helper and handed back
+			for _, b := range fn.Blocks {
+				for _, in := range b.Instrs {
+					cl, isCl := in.(*ssa.Call)
+					if !isCl || leading != nil {
+						continue
+					}
+					h := cl.Common().StaticCallee()
+					if h == nil || h.Pkg != fn.Pkg || len(h.Blocks) == 0 {
+						continue
+					}
+					if _, isMap := cl.Type().Underlying().(*types.Map); !isMap {
+						continue
+					}
+					via, release := valueVia(cl)
+					mk, isMk := via.(*ssa.MakeMap)
+					if !isMk {
+						release()
+						continue
+					}
+					defer release()
+					nFill := 0
+					for _, hb := range h.Blocks {
+						for _, hin := range hb.Instrs {
+							x, isMu := hin.(*ssa.MapUpdate)
+							if !isMu || x.Map != ssa.Value(mk) {
+								continue
+							}
+							nFill++
+							okLead := false
+							if ld, ok := ir.Strip(x.Key).(*ssa.UnOp); ok {
+								if ia, ok := ld.X.(*ssa.IndexAddr); ok {
+									if bb, f, okf := fieldLoad(ia.X); okf && f == "Proposers" && ir.Strip(bb) == ssa.Value(cfgP) {
+										okLead = true
+									}
+								}
+							}
+							c.Decide(okLead, "C40.select", fn, "the excluded set is filled from cfg.Proposers only", c.P.Rel(x.Pos()), "in helper "+h.Name())
+						}
+					}
+					if nFill > 0 {
+						leading, leadHost, leadMap = cl, h, mk
+						c.Attribute(h, fn)
+					}
+				}
+			}
+		}
 		if selected == nil || leading == nil {
 			c.Broken("C40.select", fn, "already-selected set and leading-proposer set", c.P.Rel(fn.Pos()), "not found")
 			return
 		}
-		checkLeadingProposerCount(c, fn, leading, chP)
+		checkLeadingProposerCount(c, leadHost, leadMap, chP)
 		opt := &eng.Opt{Start: draw}
 		miss := func(m ssa.Value, name string) eng.NamedGuard {
 			return eng.NamedGuard{Name: name, G: func(cd ir.Cond) (bool, bool) {
